@@ -345,7 +345,7 @@ fn main() {
                 if name == "give_back_resource:before_lock" && f.swap(false, Ordering::SeqCst) {
                     pk.store(true, Ordering::SeqCst);
                     let t0 = std::time::Instant::now();
-                    while !rl.load(Ordering::SeqCst) && t0.elapsed() < Duration::from_millis(2000) {
+                    while !rl.load(Ordering::SeqCst) && t0.elapsed() < Duration::from_secs(30) {
                         std::thread::sleep(Duration::from_millis(1));
                     }
                 }
@@ -354,7 +354,7 @@ fn main() {
             let pa = pool3.clone();
             let a = std::thread::spawn(move || pa.give_back_resource(R { gen: 0 }, 0).unwrap());
             let t0 = std::time::Instant::now();
-            while !parked.load(Ordering::SeqCst) && t0.elapsed() < Duration::from_millis(2000) {
+            while !parked.load(Ordering::SeqCst) && t0.elapsed() < Duration::from_secs(25) {
                 std::thread::sleep(Duration::from_millis(1));
             }
             let was_parked = parked.load(Ordering::SeqCst);
@@ -386,7 +386,7 @@ fn main() {
                 if name == "give_back_resource:before_lock" && f.swap(false, Ordering::SeqCst) {
                     pk.store(true, Ordering::SeqCst);
                     let t0 = std::time::Instant::now();
-                    while !rl.load(Ordering::SeqCst) && t0.elapsed() < Duration::from_millis(2000) {
+                    while !rl.load(Ordering::SeqCst) && t0.elapsed() < Duration::from_secs(30) {
                         std::thread::sleep(Duration::from_millis(1));
                     }
                 }
@@ -394,11 +394,12 @@ fn main() {
             let pool4 = Arc::new(ResourcePool::<R>::new(1, vec![R { gen: 0 }]));
             let pa = pool4.clone();
             let a = std::thread::spawn(move || {
-                let item = pa.acquire_resource(Duration::from_millis(100)).unwrap();
+                // (generous time-outs: the machine may be busy; nothing here depends on timing for its verdict)
+                let item = pa.acquire_resource(Duration::from_secs(20)).unwrap();
                 if explicit { pa.give_back_resource_pool_item(item).unwrap(); } else { drop(item); }
             });
             let t0 = std::time::Instant::now();
-            while !parked.load(Ordering::SeqCst) && t0.elapsed() < Duration::from_millis(2000) {
+            while !parked.load(Ordering::SeqCst) && t0.elapsed() < Duration::from_secs(25) {
                 std::thread::sleep(Duration::from_millis(1));
             }
             let was_parked = parked.load(Ordering::SeqCst);
